@@ -813,7 +813,27 @@ def kak_decomposition(
         https://arxiv.org/abs/quant-ph/0507171
     """
     if isinstance(unitary_object, KakDecomposition):
-        return unitary_object
+        # A decomposition built by hand need not be canonical.
+        x, y, z = unitary_object.interaction_coefficients
+        cannon = kak_canonicalize_vector(x, y, z)
+        if cannon.interaction_coefficients == (x, y, z):
+            return unitary_object
+        before, after = (
+            unitary_object.single_qubit_operations_before,
+            unitary_object.single_qubit_operations_after,
+        )
+        return KakDecomposition(
+            interaction_coefficients=cannon.interaction_coefficients,
+            global_phase=unitary_object.global_phase * cannon.global_phase,
+            single_qubit_operations_before=(
+                np.dot(cannon.single_qubit_operations_before[0], before[0]),
+                np.dot(cannon.single_qubit_operations_before[1], before[1]),
+            ),
+            single_qubit_operations_after=(
+                np.dot(after[0], cannon.single_qubit_operations_after[0]),
+                np.dot(after[1], cannon.single_qubit_operations_after[1]),
+            ),
+        )
     if isinstance(unitary_object, np.ndarray):
         mat = unitary_object
     else:
